@@ -265,3 +265,28 @@ def h_slice_errors(ctx, it):
     except PyExc as e:
         ctx.prove('raises_type_error', e.cls == 'TypeError')
     ctx.prove('nothing_created', it.getattr(base, 'sensitivity') is None)
+
+
+for _skind in ('complex_state', 'real_state'):
+    @harness(P, f'Signal.add_sensitivity[complex_array,{_skind}]', targets=[T('Signal.add_sensitivity')])
+    def h_add_complex(ctx, it, skind=_skind):
+        """complex array contributions (a signal whose state is complex / real): the first contribution is stored as a fresh copy - also when its dtype
+        already matches what the signal wants to keep -, the caller's array is never aliased, two signals that received the same array are isolated"""
+        import numpy as np
+
+        def carr(nm, kind='complex'):
+            return CArr(np.array([Cx(ctx.sym(f'{nm}{k}r', 'real'), ctx.sym(f'{nm}{k}i', 'real')) if kind == 'complex' else ctx.sym(f'{nm}{k}', 'real') for k in range(2)],
+                                 dtype=object), kind)
+        st = carr('st', 'complex' if skind == 'complex_state' else 'real')
+        ds1, ds2 = carr('d'), carr('e')
+        v1, v2 = list(ds1.data), list(ds2.data)
+        s, s2 = mk_signal(it, st), mk_signal(it, carr('st2', 'complex' if skind == 'complex_state' else 'real'))
+        it.call(it.getattr(s, 'add_sensitivity'), [ds1])
+        it.call(it.getattr(s2, 'add_sensitivity'), [ds1])
+        a1, a2 = it.getattr(s, 'sensitivity'), it.getattr(s2, 'sensitivity')
+        ctx.prove('first_add.fresh_storage', isinstance(a1, CArr) and not same_storage(a1, ds1) and not same_storage(a2, ds1) and not same_storage(a1, a2))
+        it.call(it.getattr(s, 'add_sensitivity'), [ds2])
+        eq = lambda x, y: z3.And(V.zreal(V.real_part(x)) == V.zreal(V.real_part(y)), V.zreal(V.imag_part(x)) == V.zreal(V.imag_part(y)))
+        ctx.prove('accumulated', z3.And(*[eq(it.getattr(s, 'sensitivity').data[k], V.add(v1[k], v2[k])) for k in range(2)]))
+        ctx.prove('argument_unchanged', z3.And(*[eq(ds1.data[k], v1[k]) for k in range(2)]))
+        ctx.prove('other_signal_isolated', z3.And(*[eq(it.getattr(s2, 'sensitivity').data[k], v1[k]) for k in range(2)]))
